@@ -185,3 +185,8 @@ SUBS = [
         nontrivial=lambda c: _last.get("n", 0) >= 1 and bool(c["cfg"]),
         render=parsing.render, n={"quick": 800, "thorough": 10000}, shards={"quick": 6, "thorough": 16}, text_keys=("text",)),
 ]
+
+# thorough tier: coverage-guided fuzzing (atheris / libFuzzer) of the same oracle, see fuzz/fuzz_parse.py
+from vlib import fuzzrun  # noqa: E402
+_fuzz_last = {}
+SUBS.append(fuzzrun.fuzz_sub(ID, lambda: next(s for s in SUBS if s.name == "no_double"), _fuzz_last))
